@@ -148,6 +148,24 @@ Definition dl_children (p : path) (l : alist) : list bytes :=
   flat_map (fun qe => if is_child p (fst qe) && e_set (snd qe)
                       then [last (fst qe) []] else []) l.
 
+(** all children of a directory with their "has a value" flag, in the order of
+    the list (the order in which an iteration passes them) *)
+Definition dl_kids (p : path) (l : alist) : list (bytes * bool) :=
+  flat_map (fun qe => if is_child p (fst qe) then [(last (fst qe) [], e_set (snd qe))] else []) l.
+
+(** the first child with a value; [dl_next_from k]: the first one after child [k] *)
+Fixpoint dl_first (kids : list (bytes * bool)) : option bytes :=
+  match kids with
+  | [] => None
+  | (k, s) :: t => if s then Some k else dl_first t
+  end.
+
+Fixpoint dl_next_from (cur : bytes) (kids : list (bytes * bool)) : option bytes :=
+  match kids with
+  | [] => None
+  | (k, _) :: t => if bytes_eqb k cur then dl_first t else dl_next_from cur t
+  end.
+
 (** one checked set through the API: (status, new dictionary) *)
 Definition dl_check_set (p : path) (ty : atype) (v : aval) (l : alist) : status * alist :=
   match dl_find p l with
